@@ -79,6 +79,15 @@ func Groups() map[string]*Group {
 		}
 	}
 	add("bytes", bts...)
+	// byteswide: a finer grid for the arithmetic family of number filters
+	var btw []func(*Rec)
+	for c := uint64(0); c <= 9; c++ {
+		for sv := uint64(0); sv <= 9; sv++ {
+			c, sv := c, sv
+			btw = append(btw, func(r *Rec) { r.CBytes, r.SBytes = c, sv })
+		}
+	}
+	add("byteswide", btw...)
 	var hosts []func(*Rec)
 	for _, fam := range [][]net.IP{hostsV4, hostsV6} {
 		for _, c := range fam {
